@@ -467,8 +467,9 @@ fn random_case(seed: u64, i: u64) -> CaseOut {
 fn machine_case(seed: u64, i: u64) -> CaseOut {
     let mut out = CaseOut::new();
     let mut rng = Rng::for_case(seed, "C14m", i);
-    let src = ".orig x3000\nfoo add r0 r0 #1\nbar add r1 r1 #1\nlab .fill x1234\n.blkw #20\nend_ halt\n";
-    let labels: &[(&str, u16)] = &[("foo", 0x3000), ("bar", 0x3001), ("lab", 0x3002), ("end_", 0x3017)];
+    // (`o17` and `B1` are labels to the assembler and the integers 15 and 1 to the command language, whatever the program defines)
+    let src = ".orig x3000\nfoo add r0 r0 #1\nbar add r1 r1 #1\nlab .fill x1234\n.blkw #20\nend_ halt\no17 .fill x1234\nB1 .fill x5678\n";
+    let labels: &[(&str, u16)] = &[("foo", 0x3000), ("bar", 0x3001), ("lab", 0x3002), ("end_", 0x3017), ("o17", 0x3018), ("B1", 0x3019)];
     let pool = |rng: &mut Rng| -> String {
         match rng.below(10) {
             0 => nth_string(rng.below(count_strings(4)), 4),
@@ -479,7 +480,8 @@ fn machine_case(seed: u64, i: u64) -> CaseOut {
             5 => format!("{}{}{}", rng.pick(labels).0, rng.s(&["+", "-", ""]), rng.s(&["1", "x2", "#3", "", "0x10"])),
             6 => format!("r{}", rng.below(9)),
             7 => format!("{}{}", rng.s(&["0x", "x", "-x", "x-", "b", "0b", "o", "-#"]), rng.below(1000)),
-            8 => rng.s(&["0", "-0", "+0", "00", "0x0", "2147483647", "2147483648", "-2147483648", "65535", "65536", "-32768", "-32769"]).to_string(),
+            8 => rng.s(&["0", "-0", "+0", "00", "0x0", "2147483647", "2147483648", "-2147483648", "65535", "65536", "-32768", "-32769", "o17", "B1", "O17", "o17+1", "B1-1", "b1",
+                "-40000", "-65535", "-32769", "x-8001", "#-65536"]).to_string(),
             _ => format!("{}", rng.below(0x10000)),
         }
     };
